@@ -449,10 +449,10 @@ func init() {
 		def{"C13", base + "plus Byzantine submissions before block cuts: the next block damaged in one rule (height, parent, timestamp, block root, stale re-submission, sibling of the tip, wrong state root) or valid, re-sealed by an honest quorum, through AddBlock / ExecuteBlock+SubmitBlock / AddHeaders on any node. oracle: a committed block satisfies every acceptance rule evaluated by a reference (naive RFC 6962 block root); an uncommitted submission leaves every observable unchanged; lookups by height/hash return the committed block and its transactions on every replica; the honest block is accepted afterwards", map[string]int{"chain": 2, "cand": 3, "node": 3, "priv": 2, "import": 2, "relayer": 1}, []string{"bad:wrong-parent", "bad:block-root-flipped", "bad:fork-sibling-of-tip", "bad:resubmit-tip", "valid_submission_accepted:valid-control"}},
 		def{"C14", base + "plus Byzantine seals before block cuts: 0 / threshold-1 / threshold signers, duplicated member, foreign keys, signatures over another hash, bookkeepers without signatures, former and future members around hand-overs, and config-change blocks that fail later (wrong state root / block root). Half of the runs are main net with the legacy-height knob at 0 so that the strict rule N-floor((N-1)/3) is in force, the rest legacy N-floor(6N/7). oracle: committed => distinct members of the set in force with valid signatures >= required; set in force unchanged by uncommitted submissions (the honest block sealed by the old set must still be accepted)", map[string]int{"node": 6, "cand": 6, "priv": 4, "chain": 1, "import": 1, "relayer": 0, "strict": 1}, []string{"bad:one-below-threshold", "bad:duplicated-member", "bad:foreign-keys", "validator_set_changed", "valid_submission_accepted:exactly-threshold", "strict_quorum_rule_in_force", "seal_by_former_members"}},
 		def{"C18", base + "oracle: operator-only operations without the witness of the operator address derived from the pre-state consensus set fail with no writes (except a due epoch change); owner/approver/voter operations signed by somebody else than the named address fail with no writes. 8% of steps are signed by a wrong key; privileged ops use 6 signing modes", map[string]int{"priv": 8, "chain": 3, "cand": 3, "relayer": 2, "node": 2, "import": 2, "sig": 1, "forge": 10}, []string{"privileged_without_witness_rejected", "owner_op_without_witness_rejected", "privileged_with_operator_witness"}},
-		def{"C20", base + "oracle: per (source chain, cross-chain id) at most one acceptance; the done mark appears exactly with the acceptance; replayed rounds (same and altered payload) fail without writes", map[string]int{"import": 12, "chain": 3, "priv": 1, "cand": 1, "node": 1, "relayer": 0, "replay": 1}, []string{"import_released", "replay_rejected"}},
-		def{"C21", base + "oracle: an import whose source or destination chain is unregistered or blacklisted in the pre-state fails with no writes; whitelisting restores acceptance", map[string]int{"import": 10, "priv": 5, "chain": 4, "cand": 1, "node": 1, "relayer": 0}, []string{"import_rejected_source_gate", "import_rejected_destination_gate", "import_released", "privileged_succeeded:blackchain"}},
-		def{"C22", base + "oracle: each accepted import stores exactly one request under (destination, relay tx hash) whose content is (relay tx hash, source chain, voted message) and whose hash is the single new cross-state leaf; rejected imports add neither", map[string]int{"import": 12, "chain": 3, "priv": 1, "cand": 1, "node": 1, "relayer": 0}, []string{"import_released"}},
-		def{"C25", base + "oracle: per message / signed subject the set of distinct voters; only pre-state consensus validators may vote; released / quorum event exactly at the first vote reaching ceil(2N/3) distinct current validators and never again", map[string]int{"import": 8, "sig": 6, "chain": 3, "cand": 2, "node": 2, "priv": 1, "relayer": 0}, []string{"vote_threshold_reached_exactly", "vote_after_release", "sig_quorum_emitted", "sig_after_quorum", "vote_by_non_validator_rejected"}},
+		def{"C20", base + "oracle: per (source chain, cross-chain id) at most one acceptance; the done mark appears exactly with the acceptance; replayed rounds (same and altered payload) fail without writes", map[string]int{"ripple": 3, "import": 12, "chain": 3, "priv": 1, "cand": 1, "node": 1, "relayer": 0, "replay": 1}, []string{"import_released", "replay_rejected"}},
+		def{"C21", base + "oracle: an import whose source or destination chain is unregistered or blacklisted in the pre-state fails with no writes; whitelisting restores acceptance", map[string]int{"ripple": 3, "import": 10, "priv": 5, "chain": 4, "cand": 1, "node": 1, "relayer": 0}, []string{"import_rejected_source_gate", "import_rejected_destination_gate", "import_released", "privileged_succeeded:blackchain"}},
+		def{"C22", base + "oracle: each accepted import stores exactly one request under (destination, relay tx hash) whose content is (relay tx hash, source chain, voted message) and whose hash is the single new cross-state leaf; rejected imports add neither", map[string]int{"ripple": 3, "import": 12, "chain": 3, "priv": 1, "cand": 1, "node": 1, "relayer": 0}, []string{"ripple_import_released", "import_released"}},
+		def{"C25", base + "oracle: per message / signed subject the set of distinct voters; only pre-state consensus validators may vote; released / quorum event exactly at the first vote reaching ceil(2N/3) distinct current validators and never again", map[string]int{"ripple": 3, "import": 8, "sig": 6, "chain": 3, "cand": 2, "node": 2, "priv": 1, "relayer": 0}, []string{"vote_threshold_reached_exactly", "vote_after_release", "sig_quorum_emitted", "sig_after_quorum", "vote_by_non_validator_rejected"}},
 		def{"C08", base + "oracle: for every committed block and every replica, each request record written by the block has a served proof that verifies (merkle.MerkleProve) against the block's committed cross-state root to exactly the stored record, the next header carries that root, and for every ph<h the served block proof verifies against header h's block root to block ph's hash", map[string]int{"import": 14, "chain": 3, "cand": 1, "node": 1, "priv": 1, "relayer": 0, "burst": 2, "crash": 30}, []string{"cross_proof_verified", "block_proof_verified", "crash_in_block_with_cross_chain_records"}},
 	)
 	defs = append(defs,
@@ -557,6 +557,9 @@ func genFor(id string, w map[string]int, extra func(rng *kernel.RNG, steps []ker
 		if pl.Cfg["lag"] == 1 && pl.Cfg["followers"] == 0 {
 			pl.Cfg["followers"] = 1
 		}
+	}
+	if w["ripple"] > 1 && rng.Chance(0.6) {
+		pl.Cfg["net"] = 77 // ripple-router chains need their ExtraInfo, which main/test net drop below a fork height
 	}
 	if w["strict"] > 0 && rng.Chance(0.5) {
 		pl.Cfg["net"], pl.Cfg["legacyheight"] = 1, 0
